@@ -234,7 +234,7 @@ func run() int {
 		// inconclusive conditions
 		for k, n := range st.Status {
 			switch k {
-			case "ok", "cut", "infeasible", "assert-end":
+			case "ok", "cut", "infeasible", "assert-end", "crash":
 			default:
 				reasons := []string{}
 				for r := range st.Unsupported {
@@ -420,7 +420,7 @@ func explore(sh *interp.Shared, h *ssa.Function, known map[string]bool) *harness
 				switch res.Status {
 				case "cut":
 					st.Cuts[res.Reason]++
-				case "ok", "infeasible", "assert-end":
+				case "ok", "infeasible", "assert-end", "crash":
 				default:
 					st.Unsupported[res.Status+": "+res.Reason]++
 					if *verbose && st.Unsupported[res.Status+": "+res.Reason] == 1 {
